@@ -1228,6 +1228,42 @@ Run()
   const auto wall = NowNs() - t0;
 
   if (!hang) {
+    // C02: after the last guard is gone a fresh exclusive request must succeed (helper thread + bounded wait)
+    {
+      std::atomic<int> step{0};
+      std::thread helper([&] {
+        ChaosThreadBegin(kMaxThreads - 1, g_cfg.seed);
+        t_chaos.enabled = false;
+        t_mon = MonTls{};
+        t_mon.tid = kMaxThreads - 1;
+        for (int i = 0; i < g_cfg.locks; ++i) {
+          tl_track = 1;
+          {
+            auto x = eng.boxes_[i].lock.LockX();
+            (void)x;
+          }
+          tl_track = 0;
+          if constexpr (T::kOpt) eng.boxes_[i].ghost_ver.fetch_add(1, kMo);  // the probe's own section published +1
+          step.store(i + 1, kMo);
+        }
+      });
+      const auto tw = NowNs();
+      while (step.load(kMo) < g_cfg.locks && NowNs() - tw < g_cfg.hang_s * 1000000000ULL) SleepNs(200000);
+      if (step.load(kMo) < g_cfg.locks) {
+        const int i = step.load(kMo);
+        Violate("C02", Fmt("%s:fresh-LockX-blocks-after-last-guard-gone", T::kName),
+                Fmt("class=%s profile=%s: all workers finished and released everything (ghost registry empty), yet a fresh "
+                    "LockX on lock %d did not return within %" PRIu64 " s; raw lock word %016" PRIx64,
+                    T::kName, g_cfg.profile.c_str(), i, g_cfg.hang_s,
+                    reinterpret_cast<std::atomic<uint64_t> *>(&eng.boxes_[i].lock)->load(kRlx)));
+        Result r2;
+        r2.Add("hangs", 1);
+        EmitResult(r2, "hang");
+        fflush(stdout);
+        _exit(0);
+      }
+      helper.join();
+    }
     // final checks (quiescent): everything released
     for (int i = 0; i < g_cfg.locks; ++i) {
       auto &b = eng.boxes_[i];
